@@ -6,8 +6,6 @@ From Coq Require Import Permutation.
    generate itself.  BlockStake and Bound (NFT) transactions are user transactions. *)
 Definition user_type (t : atx) : Prop :=
   t_type t <> TFee /\ t_type t <> TSPV /\ t_type t <> TATR /\ t_type t <> TIssuance.
-(* ... of which all but the Bound ones are subject to the ownership check *)
-Definition coin_type (t : atx) : Prop := user_type t /\ t_type t <> TBound.
 
 (* unbounded sums *)
 Definition nsum (l : list N) : N := fold_left N.add l 0.
@@ -20,23 +18,13 @@ Definition in_window (e : env) (s : aslip) : Prop := e_next e <= sl_bid s + e_gp
 Record SpendOK (e : env) (t : atx) : Prop := {
   so_signed : t_sig_ok t = true;
   so_nonempty : t_from t <> [];
-  so_spendable : forall s, In s (t_from t) -> value_input s = true -> sl_spendable s = true;
+  (* every input with an amount -- Bound slips included -- is in the ledger *)
+  so_spendable : forall s, In s (t_from t) -> has_amount s = true -> sl_spendable s = true;
   so_owned : forall s, In s (t_from t) -> value_input s = true -> sl_pk s = signer t;
   so_window : forall s, In s (t_from t) -> value_input s = true -> in_window e s;
-  so_nodup : NoDup (value_keys t);
+  (* ... and named once (Bound slips included) *)
+  so_nodup : NoDup (dup_keys t);
   so_no_inflation : nsum (map counted (t_from t)) < U64MAX ->
-                    nsum (map counted (t_to t)) <= nsum (map counted (t_from t))
-}.
-
-(* SpendOK without the ownership conjunct: what validation establishes for every
-   user transaction, Bound ones included *)
-Record SpendOK_but_owner (e : env) (t : atx) : Prop := {
-  sb_signed : t_sig_ok t = true;
-  sb_nonempty : t_from t <> [];
-  sb_spendable : forall s, In s (t_from t) -> value_input s = true -> sl_spendable s = true;
-  sb_window : forall s, In s (t_from t) -> value_input s = true -> in_window e s;
-  sb_nodup : NoDup (value_keys t);
-  sb_no_inflation : nsum (map counted (t_from t)) < U64MAX ->
                     nsum (map counted (t_to t)) <= nsum (map counted (t_from t))
 }.
 
@@ -114,7 +102,8 @@ Lemma common_inv e t :
   user_type t -> common_checks e t = Valid ->
   t_from t <> [] /\ t_sig_ok t = true /\ (total_in t <? total_out t) = false
   /\ age_check (e_gp e) (e_next e) (t_from t) = true
-  /\ (t_type t <> TBound -> all_owned t = true /\ tail_checks t = Valid
+  /\ all_owned t = true
+  /\ (t_type t <> TBound -> tail_checks t = Valid
                             /\ has_bound (t_from t) = false /\ has_bound (t_to t) = false)
   /\ (t_type t = TBound -> bound_checks e t = Valid).
 Proof.
@@ -123,24 +112,18 @@ Proof.
   destruct (t_from t) as [|s0 rest] eqn:Hfrom; [discriminate|].
   destruct (t_has_hash t); cbn [negb] in H; [|discriminate].
   destruct (t_sig_ok t); cbn [negb] in H; [|discriminate].
-  destruct (t_type t =? TBound) eqn:Hb; cbn [negb andb] in H.
-  - destruct (age_check (e_gp e) (e_next e) (s0 :: rest)) eqn:Hage; cbn [negb] in H; [|discriminate].
-    unfold common_tail in H. rewrite Hatr, Hiss, Hb in H. cbn [negb andb] in H.
-    destruct (t_path_ok t); cbn [negb] in H; [|discriminate].
-    destruct (total_in t <? total_out t); [discriminate|].
-    apply N.eqb_eq in Hb. split; [congruence|]. split; [reflexivity|]. split; [reflexivity|].
-    split; [reflexivity|].
+  destruct (all_owned t) eqn:Hown; cbn [negb] in H; [|discriminate].
+  destruct (age_check (e_gp e) (e_next e) (s0 :: rest)) eqn:Hage; cbn [negb] in H; [|discriminate].
+  unfold common_tail in H. rewrite Hatr, Hiss in H. cbn [negb andb] in H.
+  destruct (t_path_ok t); cbn [negb] in H; [|discriminate].
+  destruct (total_in t <? total_out t); [discriminate|].
+  destruct (t_type t =? TBound) eqn:Hb.
+  - apply N.eqb_eq in Hb. split; [congruence|]. do 4 (split; [reflexivity|]).
     split; [intros Hn; congruence|intros _; exact H].
-  - destruct (all_owned t); cbn [negb] in H; [|discriminate].
-    destruct (age_check (e_gp e) (e_next e) (s0 :: rest)) eqn:Hage; cbn [negb] in H; [|discriminate].
-    unfold common_tail in H. rewrite Hatr, Hiss, Hb in H. cbn [negb andb] in H.
-    destruct (t_path_ok t); cbn [negb] in H; [|discriminate].
-    destruct (total_in t <? total_out t); [discriminate|].
-    rewrite Hfrom in H.
+  - rewrite Hfrom in H.
     destruct (has_bound (s0 :: rest)) eqn:Hb1; [discriminate|].
     destruct (has_bound (t_to t)) eqn:Hb2; [discriminate|]. cbn [orb] in H.
-    apply N.eqb_neq in Hb. split; [congruence|]. split; [reflexivity|]. split; [reflexivity|].
-    split; [reflexivity|].
+    apply N.eqb_neq in Hb. split; [congruence|]. do 4 (split; [reflexivity|]).
     split; [intros _; repeat split; auto|intros Hn; congruence].
 Qed.
 
@@ -154,7 +137,7 @@ Qed.
 
 Lemma valid_inv e t :
   user_type t -> tx_validate e t = Valid ->
-  nodupb (value_keys t) = true /\ common_checks e t = Valid
+  nodupb (dup_keys t) = true /\ common_checks e t = Valid
   /\ (t_type t = TStake ->
       exists total, stake_outs (e_ovf e) 0 (t_to t) = SOk total
                     /\ e_stake_req e <= total /\ stake_ins t = true).
@@ -163,7 +146,7 @@ Proof.
   apply N.eqb_neq in Hfee, Hspv. rewrite Hfee, Hspv in H.
   destruct (255 <? Nlen (t_from t)); [discriminate|].
   destruct (255 <? Nlen (t_to t)); [discriminate|].
-  destruct (nodupb (value_keys t)); cbn [negb] in H; [|discriminate].
+  destruct (nodupb (dup_keys t)); cbn [negb] in H; [|discriminate].
   destruct (t_type t =? TStake) eqn:Hs.
   - destruct (stake_outs (e_ovf e) 0 (t_to t)) as [total| |] eqn:Ho; try discriminate.
     destruct (total <? e_stake_req e) eqn:Hr; [discriminate|].
@@ -173,12 +156,11 @@ Proof.
 Qed.
 
 Lemma spendable_of_tail t : tail_checks t = Valid ->
-  forall s, In s (t_from t) -> value_input s = true -> sl_spendable s = true.
+  forall s, In s (t_from t) -> has_amount s = true -> sl_spendable s = true.
 Proof.
   intros Ht s Hin Hv. destruct (tail_inv t Ht) as [_ Hsp].
   pose proof (forallb_In _ _ _ Hsp Hin) as Hs. cbn beta in Hs.
-  unfold slip_validate in Hs. unfold value_input in Hv.
-  apply andb_true_iff in Hv as [Hv _]. now rewrite Hv in Hs.
+  unfold slip_validate in Hs. unfold has_amount in Hv. now rewrite Hv in Hs.
 Qed.
 
 Lemma owned_of_all_owned t : all_owned t = true ->
@@ -189,50 +171,22 @@ Proof.
   cbn [negb orb] in Hs. now apply N.eqb_eq in Hs.
 Qed.
 
-(* every accepted user transaction, Bound ones included *)
-Lemma valid_user_but_owner e t :
-  user_type t -> tx_validate e t = Valid -> SpendOK_but_owner e t.
+(* every accepted user transaction, Bound (NFT) ones included *)
+Lemma valid_user_spendok e t :
+  user_type t -> tx_validate e t = Valid -> SpendOK e t.
 Proof.
   intros Hu H. destruct (valid_inv e t Hu H) as (Hnd & Hc & _).
-  destruct (common_inv e t Hu Hc) as (Hne & Hsig & Htot & Hage & Hnb & Hb).
+  destruct (common_inv e t Hu Hc) as (Hne & Hsig & Htot & Hage & Hown & Hnb & Hb).
   assert (Htail : tail_checks t = Valid).
   { destruct (N.eq_dec (t_type t) TBound) as [Hty|Hty].
     - now destruct (bound_checks_inv e t (Hb Hty)).
-    - now destruct (Hnb Hty) as (_ & Ht & _). }
+    - now destruct (Hnb Hty) as (Ht & _). }
   constructor; auto.
   - now apply spendable_of_tail.
+  - now apply owned_of_all_owned.
   - intros s Hin Hv. exact (age_check_window _ _ _ Hage s Hin Hv).
   - now apply nodupb_NoDup.
   - intros Hlt. now apply no_inflation.
-Qed.
-
-Lemma spendok_of_parts e t :
-  SpendOK_but_owner e t -> all_owned t = true -> SpendOK e t.
-Proof.
-  intros [H1 H2 H3 H4 H5 H6] Hown. constructor; auto. now apply owned_of_all_owned.
-Qed.
-
-(* every accepted user transaction that is not Bound-typed: BlockStake included *)
-Lemma valid_user_spendok e t :
-  coin_type t -> tx_validate e t = Valid -> SpendOK e t.
-Proof.
-  intros [Hu Hnb] H. apply spendok_of_parts; [now apply (valid_user_but_owner e)|].
-  destruct (valid_inv e t Hu H) as (_ & Hc & _).
-  destruct (common_inv e t Hu Hc) as (_ & _ & _ & _ & Hx & _). now destruct (Hx Hnb).
-Qed.
-
-(* the class of transactions for which the ownership conjunct fails on the code as
-   it is: Bound-typed transactions with a value input of another key *)
-Definition Known_bound_foreign (t : atx) : Prop := t_type t = TBound /\ all_owned t = false.
-
-Lemma valid_user_spendok_guarded e t :
-  user_type t -> ~ Known_bound_foreign t -> tx_validate e t = Valid -> SpendOK e t.
-Proof.
-  intros Hu Hk H. apply spendok_of_parts; [now apply (valid_user_but_owner e)|].
-  destruct (N.eq_dec (t_type t) TBound) as [Hty|Hty].
-  - destruct (all_owned t) eqn:Ho; [reflexivity|]. exfalso. apply Hk. split; auto.
-  - destruct (valid_inv e t Hu H) as (_ & Hc & _).
-    destruct (common_inv e t Hu Hc) as (_ & _ & _ & _ & Hx & _). now destruct (Hx Hty).
 Qed.
 
 (* ---------- BlockStake ---------- *)
@@ -286,7 +240,7 @@ Proof.
   intros Hty H.
   assert (Hu : user_type t) by (unfold user_type; rewrite Hty; repeat split; discriminate).
   split.
-  - apply (valid_user_spendok e); [|exact H]. split; [exact Hu|]. rewrite Hty. discriminate.
+  - now apply (valid_user_spendok e).
   - destruct (valid_inv e t Hu H) as (_ & _ & Hs).
     destruct (Hs Hty) as (total & Ho & Hreq & Hin).
     destruct (stake_outs_spec _ _ _ _ Ho) as [Htypes Hle].
@@ -336,15 +290,13 @@ Proof.
   intros Hty Hnew H.
   assert (Hu : user_type t) by (unfold user_type; rewrite Hty; repeat split; discriminate).
   destruct (valid_inv e t Hu H) as (_ & Hc & _).
-  destruct (common_inv e t Hu Hc) as (_ & _ & _ & _ & _ & Hb).
+  destruct (common_inv e t Hu Hc) as (_ & _ & _ & _ & _ & _ & Hb).
   destruct (bound_checks_inv e t (Hb Hty)) as (_ & [[_ Hok]|[Hn _]]); [|congruence].
   unfold is_new_nft in Hnew. apply andb_true_iff in Hnew as [Hnew Hlen].
   apply andb_true_iff in Hnew as [Hone Hnorm].
   destruct (Nlen_1 _ Hone) as [s Hs].
   split.
-  - apply spendok_of_parts; [now apply (valid_user_but_owner e)|].
-    unfold all_owned, signer. rewrite Hs. cbn [forallb]. rewrite N.eqb_refl.
-    now rewrite orb_true_r.
+  - now apply (valid_user_spendok e).
   - unfold bound_create_ok in Hok. split_andb Hok. unfold is_type in *.
     assert (Hfr : fr t 0 = s) by (unfold fr; now rewrite Hs).
     rewrite Hfr in *.
@@ -364,8 +316,10 @@ Definition SendOK (e : env) (t : atx) : Prop :=
       t_from t = f0 :: f1 :: f2 :: frest /\ t_to t = o0 :: o1 :: o2 :: orest
       /\ sl_type f0 = SBound /\ sl_type f1 = SNormal /\ sl_type f2 = SBound
       /\ sl_amount f2 = 0
-      (* the signature is checked against the key in the first Bound slip *)
-      /\ sl_pk f0 = signer t
+      (* who signs (Transaction::signer_public_key): the holder -- the owner of the Normal slip
+         that moves with the NFT -- if that slip carries coins; the key in the first Bound slip
+         if the NFT has no deposit *)
+      /\ signer t = (if 0 <? sl_amount f1 then sl_pk f1 else sl_pk f0)
       (* the Normal slip moved with the NFT is the one created right after the Bound
          slip, in the same transaction of the same block: it cannot be replaced *)
       /\ sl_bid f1 = sl_bid f0 /\ sl_ord f1 = sl_ord f0 /\ sl_bid f2 = sl_bid f0 /\ sl_ord f2 = sl_ord f0
@@ -389,13 +343,13 @@ Proof. intros H s Hin. pose proof (forallb_In _ _ _ H Hin) as Hs. now apply N.eq
 
 Lemma valid_bound_send e t :
   t_type t = TBound -> is_new_nft t = false -> tx_validate e t = Valid ->
-  SpendOK_but_owner e t /\ SendOK e t.
+  SpendOK e t /\ SendOK e t.
 Proof.
   intros Hty Hnew H.
   assert (Hu : user_type t) by (unfold user_type; rewrite Hty; repeat split; discriminate).
-  split; [now apply (valid_user_but_owner e)|].
+  split; [now apply (valid_user_spendok e)|].
   destruct (valid_inv e t Hu H) as (_ & Hc & _).
-  destruct (common_inv e t Hu Hc) as (_ & _ & _ & _ & _ & Hb).
+  destruct (common_inv e t Hu Hc) as (_ & _ & _ & _ & _ & _ & Hb).
   destruct (bound_checks_inv e t (Hb Hty)) as (_ & [[Hn _]|(_ & Hsh & Hidx)]); [congruence|].
   unfold bound_send_shape in Hsh. split_andb Hsh.
   repeat match goal with Hx : negb _ = true |- _ => apply negb_true_iff in Hx end.
@@ -406,7 +360,11 @@ Proof.
   destruct (bound_send_idx_inv _ _ Hidx) as [Hi1 Hi2].
   unfold fr, tt, is_type in *. rewrite Hf, Ho in *. cbn [nth skipn] in *.
   repeat match goal with Hx : (_ =? _) = true |- _ => apply N.eqb_eq in Hx end.
-  exists f0, f1, f2, fr', o0, o1, o2, or'. unfold signer. rewrite Hf.
+  exists f0, f1, f2, fr', o0, o1, o2, or'.
+  assert (Hsg : signer t = (if 0 <? sl_amount f1 then sl_pk f1 else sl_pk f0)).
+  { unfold signer. rewrite Hf, Hty.
+    match goal with Hx : sl_type f0 = SBound |- _ => rewrite Hx end.
+    cbn [N.eqb Pos.eqb andb]. rewrite !N.eqb_refl. cbn [andb]. reflexivity. }
   repeat match goal with |- _ /\ _ => split end; auto; try congruence;
     now apply forallb_type.
 Qed.
@@ -414,14 +372,22 @@ Qed.
 (* ---------- pool and block ---------- *)
 
 Lemma pool_gate_types e t : pool_gate e t = true ->
-  t_type t <> TFee /\ t_type t <> TATR /\ t_type t <> TSPV /\ tx_validate e t = Valid.
+  t_type t <> TFee /\ t_type t <> TATR /\ t_type t <> TSPV
+  /\ (t_type t = TIssuance -> e_no_chain e = true)
+  /\ (t_type t = TStake -> forall s, In s (t_from t) -> sl_pk s = e_node e)
+  /\ tx_validate e t = Valid.
 Proof.
   unfold pool_gate. intros H. apply andb_true_iff in H as [Ht Hv].
-  apply andb_true_iff in Ht as [Ht _].
+  apply andb_true_iff in Ht as [Ht Hst]. apply andb_true_iff in Ht as [Ht Hiss].
   apply negb_true_iff in Ht. apply orb_false_iff in Ht as [Ht Hspv].
   apply orb_false_iff in Ht as [Hfee Hatr].
-  apply N.eqb_neq in Hfee, Hatr, Hspv. repeat split; auto.
-  destruct (tx_validate e t); congruence.
+  apply N.eqb_neq in Hfee, Hatr, Hspv.
+  apply negb_true_iff in Hiss, Hst.
+  split; [exact Hfee|]. split; [exact Hatr|]. split; [exact Hspv|]. split; [|split].
+  - intros Hty. rewrite Hty in Hiss. cbn in Hiss. destruct (e_no_chain e); [reflexivity|discriminate].
+  - intros Hty s Hin. rewrite Hty in Hst. cbn in Hst. apply negb_false_iff in Hst.
+    pose proof (forallb_In _ _ _ Hst Hin) as Hs. now apply N.eqb_eq in Hs.
+  - destruct (tx_validate e t); congruence.
 Qed.
 
 Lemma sweep_all_valid e seen txs t :
@@ -431,11 +397,11 @@ Proof.
   cbn [sweep] in H. destruct (tx_validate e x) eqn:Hx; try discriminate.
   destruct Hin as [<-|Hin]; [exact Hx|].
   destruct (t_type x =? TFee); [eauto|].
-  destruct (existsb _ (value_keys x)); [discriminate|eauto].
+  destruct (existsb _ (dup_keys x)); [discriminate|eauto].
 Qed.
 
 Definition nonfee (t : atx) : bool := negb (t_type t =? TFee).
-Definition block_keys (txs : list atx) : list N := flat_map value_keys (filter nonfee txs).
+Definition block_keys (txs : list atx) : list N := flat_map dup_keys (filter nonfee txs).
 
 Lemma existsb_false_notin k seen : existsb (N.eqb k) seen = false -> ~ In k seen.
 Proof.
@@ -452,24 +418,24 @@ Proof.
     unfold block_keys. cbn [filter]. unfold nonfee at 1.
     destruct (t_type x =? TFee) eqn:Hfee; cbn [negb].
     + apply IH; assumption.
-    + destruct (existsb (fun k => existsb (N.eqb k) seen) (value_keys x)) eqn:Hex; [discriminate|].
-      assert (Hxn : NoDup (value_keys x)).
+    + destruct (existsb (fun k => existsb (N.eqb k) seen) (dup_keys x)) eqn:Hex; [discriminate|].
+      assert (Hxn : NoDup (dup_keys x)).
       { unfold tx_validate in Hx.
         destruct (255 <? Nlen (t_from x)); [discriminate|].
         destruct (255 <? Nlen (t_to x)); [discriminate|].
-        destruct (nodupb (value_keys x)) eqn:En; [now apply nodupb_NoDup|discriminate]. }
-      assert (Hdisj : forall k, In k (value_keys x) -> ~ In k seen).
+        destruct (nodupb (dup_keys x)) eqn:En; [now apply nodupb_NoDup|discriminate]. }
+      assert (Hdisj : forall k, In k (dup_keys x) -> ~ In k seen).
       { intros k Hk. apply existsb_false_notin.
         destruct (existsb (N.eqb k) seen) eqn:Hks; [|reflexivity].
-        assert (existsb (fun k => existsb (N.eqb k) seen) (value_keys x) = true); [|congruence].
+        assert (existsb (fun k => existsb (N.eqb k) seen) (dup_keys x) = true); [|congruence].
         apply existsb_exists. exists k. split; assumption. }
-      assert (Hnd' : NoDup (value_keys x ++ seen)).
-      { clear -Hxn Hnd Hdisj. induction (value_keys x) as [|k l IHl]; [exact Hnd|].
+      assert (Hnd' : NoDup (dup_keys x ++ seen)).
+      { clear -Hxn Hnd Hdisj. induction (dup_keys x) as [|k l IHl]; [exact Hnd|].
         inversion Hxn; subst. cbn. constructor.
         - intros Hin. apply in_app_or in Hin as [Hin|Hin]; [contradiction|].
           apply (Hdisj k); [now left|exact Hin].
         - apply IHl; [assumption|]. intros k' Hk'. apply Hdisj. now right. }
-      pose proof (IH (value_keys x ++ seen) Hnd' H) as Hres.
+      pose proof (IH (dup_keys x ++ seen) Hnd' H) as Hres.
       cbn [flat_map]. fold (block_keys rest).
       eapply Permutation_NoDup; [|exact Hres].
       rewrite <- !app_assoc.
@@ -530,13 +496,17 @@ Lemma owned_view k l :
   = forallb (fun v => negb (value_v v) || (pk_v v =? k)) (map signed_view l).
 Proof. induction l as [|s l IH]; cbn [forallb map]; [reflexivity|]. now rewrite IH. Qed.
 
-Lemma signer_view t : signer t = match map signed_view (t_from t) with v0 :: _ => pk_v v0 | [] => 0 end.
-Proof. unfold signer. destruct (t_from t); reflexivity. Qed.
+Lemma signer_view t : t_type t <> TBound ->
+  signer t = match map signed_view (t_from t) with v0 :: _ => pk_v v0 | [] => 0 end.
+Proof.
+  intros Hb. apply N.eqb_neq in Hb. unfold signer. rewrite Hb. cbn [andb].
+  destruct (t_from t) as [|a [|b [|c l]]]; reflexivity.
+Qed.
 
-Lemma all_owned_view t : all_owned t =
+Lemma all_owned_view t : t_type t <> TBound -> all_owned t =
   forallb (fun v => negb (value_v v) || (pk_v v =? match map signed_view (t_from t) with v0 :: _ => pk_v v0 | [] => 0 end))
           (map signed_view (t_from t)).
-Proof. unfold all_owned. rewrite owned_view, signer_view. reflexivity. Qed.
+Proof. intros Hb. unfold all_owned. rewrite owned_view, signer_view by exact Hb. reflexivity. Qed.
 
 Lemma out_amounts_view l :
   existsb (fun s => 0 <? sl_amount s) l = existsb (fun v => 0 <? am_v v) (map signed_view l).
@@ -546,13 +516,17 @@ Lemma signature_does_not_bind_inputs e t t' :
   t_type t <> TStake -> t_type t <> TBound ->
   signed_content t' = signed_content t ->
   t_sig_ok t' = t_sig_ok t -> t_has_hash t' = t_has_hash t -> t_path_ok t' = t_path_ok t ->
-  nodupb (value_keys t') = true ->
+  nodupb (dup_keys t') = true ->
   forallb slip_validate (t_from t') = true ->
   age_check (e_gp e) (e_next e) (t_from t') = true ->
   tx_validate e t = Valid -> tx_validate e t' = Valid.
 Proof.
   intros Hns Hnb Hsc Hsig Hhash Hpath Hnd Hsp Hage H.
   unfold signed_content in Hsc. injection Hsc as Hty Hfrom Hto.
+  assert (Hnb1 : t_type t <> TBound) by exact Hnb.
+  assert (Hnb2 : t_type t' <> TBound) by (rewrite Hty; exact Hnb).
+  assert (Hao : all_owned t' = all_owned t)
+    by (rewrite (all_owned_view t' Hnb2), (all_owned_view t Hnb1), Hfrom; reflexivity).
   apply N.eqb_neq in Hns, Hnb.
   assert (Hti : total_in t' = total_in t) by (unfold total_in; now rewrite !counted_view, Hfrom).
   assert (Hto' : total_out t' = total_out t) by (unfold total_out; now rewrite !counted_view, Hto).
@@ -568,13 +542,13 @@ Proof.
   destruct (255 <? Nlen (t_from t)); [discriminate|].
   destruct (255 <? Nlen (t_to t)); [discriminate|].
   rewrite Hnd. cbn [negb].
-  destruct (nodupb (value_keys t)); cbn [negb] in H; [|discriminate].
+  destruct (nodupb (dup_keys t)); cbn [negb] in H; [|discriminate].
   destruct (t_type t =? TFee); [reflexivity|].
   destruct (t_type t =? TSPV).
   { rewrite out_amounts_view, Hto, <- out_amounts_view, Htf.
     rewrite (out_amounts_view (t_from t')), Hfrom, <- out_amounts_view. exact H. }
-  unfold common_checks in *. rewrite Hty, Hnb in *.
-  rewrite Hemp, Hhash, Hsig, all_owned_view, Hfrom, <- all_owned_view, Hage.
+  unfold common_checks in *. rewrite Hty in *.
+  rewrite Hemp, Hhash, Hsig, Hao, Hage.
   rewrite andb_false_r.
   repeat match type of H with
   | (if ?c then Invalid else _) = Valid => destruct c; [discriminate|]
@@ -589,6 +563,57 @@ Proof.
   destruct (t_to t); [discriminate|reflexivity].
 Qed.
 
+(* ---------- where the inputs end IS fixed by the signed bytes (since /repo 4d27589) ---------- *)
+
+Definition idx_v (v : N * N * N * N) : N := let '(_, _, i, _) := v in i.
+Fixpoint numv (i : N) (l : list (N * N * N * N)) : Prop :=
+  match l with
+  | [] => True
+  | v :: rest => idx_v v = i /\ numv (i + 1) rest
+  end.
+
+Lemma numbered_numv l : forall i, numbered_from i l = true -> numv i (map signed_view l).
+Proof.
+  induction l as [|s l IH]; intros i H; cbn [numbered_from map numv] in *; [exact I|].
+  apply andb_true_iff in H as [H1 H2]. split; [now apply N.eqb_eq in H1|now apply IH].
+Qed.
+
+Lemma numv_app l : forall i r, numv i (l ++ r) -> numv (i + Nlen l) r.
+Proof.
+  induction l as [|v l IH]; intros i r H.
+  - unfold Nlen. cbn. now rewrite N.add_0_r.
+  - cbn [app numv] in H. destruct H as [_ H]. apply IH in H.
+    unfold Nlen in *. cbn [length]. rewrite Nat2N.inj_succ.
+    replace (i + N.succ (N.of_nat (length l))) with (i + 1 + N.of_nat (length l)) by lia. exact H.
+Qed.
+
+Lemma split_point (l r r' : list (N * N * N * N)) :
+  r = l ++ r' -> numv 0 r -> numv 0 r' -> r' <> [] -> l = [].
+Proof.
+  intros -> Hr Hr' Hne. apply numv_app in Hr. destruct r' as [|v r']; [congruence|].
+  cbn [numv] in Hr, Hr'. destruct Hr as [H1 _], Hr' as [H2 _].
+  rewrite H1 in H2. unfold Nlen in H2. destruct l; [reflexivity|cbn in H2; lia].
+Qed.
+
+(* two transactions as validation sees them (outputs numbered by position, at least one output)
+   with the same flat signed sequence have the same inputs and the same outputs: a signed
+   transaction cannot be re-split *)
+Lemma signed_bytes_delimited t t' :
+  outs_numbered t = true -> outs_numbered t' = true -> t_to t <> [] -> t_to t' <> [] ->
+  signed_flat t' = signed_flat t -> signed_content t' = signed_content t.
+Proof.
+  intros Hn Hn' Hne Hne' H. unfold signed_flat in H. injection H as Hty Hl.
+  unfold outs_numbered in Hn, Hn'. apply numbered_numv in Hn, Hn'.
+  assert (Hne2 : map signed_view (t_to t) <> []) by (destruct (t_to t); [congruence|discriminate]).
+  assert (Hne2' : map signed_view (t_to t') <> []) by (destruct (t_to t'); [congruence|discriminate]).
+  unfold signed_content. rewrite Hty.
+  apply app_eq_app in Hl. destruct Hl as [l [[H1 H2]|[H1 H2]]].
+  - assert (l = []) by (eapply split_point; eauto). subst l.
+    rewrite app_nil_r in H1. cbn [app] in H2. now rewrite H1, H2.
+  - assert (l = []) by (eapply split_point; eauto). subst l.
+    rewrite app_nil_r in H1. cbn [app] in H2. now rewrite H1, H2.
+Qed.
+
 (* ---------- builders for the concrete witnesses in props/C01.v ---------- *)
 (* an unspent Normal output of [pk] at (bid, ord, idx) *)
 Definition nslip (pk amount key bid ord idx : N) : aslip :=
@@ -598,31 +623,31 @@ Definition bslip (pk amount key : N) (sp : bool) (bid ord idx : N) : aslip :=
   mkSlip pk amount SBound key sp bid ord idx sp amount 0 0 0.
 (* an output being created *)
 Definition oslip (pk amount ty : N) : aslip := mkSlip pk amount ty 0 false 0 0 0 false amount 0 0 0.
+(* ... with its position *)
+Definition oslip_at (i pk amount ty : N) : aslip := mkSlip pk amount ty 0 false 0 0 i false amount 0 0 0.
 (* the third output of a new NFT: public key field = (block id, tx ordinal, slip index) of the input *)
 Definition uslip (pk bid ord idx : N) : aslip := mkSlip pk 0 SBound 0 false 0 0 0 false 0 bid ord idx.
-(* no staking requirement, overflow checks on, tip = block 3, genesis period 100 *)
-Definition env0 : env := mkEnv 0 true 3 100 1.
+(* no staking requirement, overflow checks on, tip = block 3, genesis period 100, node key 1, chain running *)
+Definition env0 : env := mkEnv 0 true 3 100 1 false.
 
-(* ---------- concrete witnesses used by props/C01.v ---------- *)
-(* listed finding bound-foreign-input: the attacker (key 5) transfers an NFT of his
-   own and adds an unspent Normal output of key 6 as fourth input; the transaction
-   validates and pays the 2000 to key 5 *)
+(* ---------- the witnesses of the repaired defects, kept as regression examples ---------- *)
+(* [sig] = does the signature verify against Transaction::signer_public_key.  The attacker is key 5
+   and can only produce signatures of key 5. *)
+(* was bound-foreign-input (fixed c1271fb): the attacker transfers an NFT of his own and adds an
+   unspent Normal output of key 6 as fourth input *)
 Definition W_foreign : atx :=
   mkTx TBound [bslip 5 1 21 true 2 3 0; nslip 5 300 22 2 3 1; bslip 77 0 0 false 2 3 2; nslip 6 2000 23 1 8 0]
               [oslip 5 1 SBound; oslip 5 300 SNormal; oslip 77 0 SBound; oslip 5 2000 SNormal] true true true.
-(* listed finding bound-creator-reclaims: key 5 minted an NFT for key 6 (deposit 400
-   owned by 6); the first Bound slip keeps key 5 for ever, so key 5 can move the NFT
-   and the deposit whenever it likes, while key 6 cannot *)
-Definition W_reclaim : atx :=
+(* was bound-creator-reclaims (fixed c1271fb): key 5 minted an NFT for key 6 (deposit 400 owned by 6)
+   and moves NFT and deposit to itself; the signature that counts is now key 6's *)
+Definition W_reclaim (sig : bool) : atx :=
   mkTx TBound [bslip 5 1 21 true 2 3 0; nslip 6 400 22 2 3 1; bslip 77 0 0 false 2 3 2]
-              [oslip 5 1 SBound; oslip 5 400 SNormal; oslip 77 0 SBound] true true true.
-(* listed finding bound-fabricated-triple: no NFT at all; two zero-amount Bound slips
-   (never looked up in the ledger) invented around any output with slip_index 1..254 *)
-Definition W_fabricated : atx :=
+              [oslip 5 1 SBound; oslip 5 400 SNormal; oslip 77 0 SBound] sig true true.
+(* was bound-fabricated-triple (fixed c1271fb): two zero-amount Bound slips invented around an
+   output of key 6 *)
+Definition W_fabricated (sig : bool) : atx :=
   mkTx TBound [bslip 5 0 31 false 2 7 0; nslip 6 2850 32 2 7 1; bslip 5 0 33 false 2 7 2]
-              [oslip 5 0 SBound; oslip 5 2850 SNormal; oslip 5 0 SBound] true true true.
+              [oslip 5 0 SBound; oslip 5 2850 SNormal; oslip 5 0 SBound] sig true true.
 
-Definition steals (t : atx) : Prop :=
-  t_type t = TBound /\ tx_validate env0 t = Valid /\ pool_gate env0 t = true /\ sweep env0 [] [t] = true /\
-  exists s, In s (t_from t) /\ value_input s = true /\ sl_spendable s = true /\ sl_pk s <> signer t.
-
+Definition refused (t : atx) : Prop :=
+  tx_validate env0 t = Invalid /\ pool_gate env0 t = false /\ sweep env0 [] [t] = false.
